@@ -15,7 +15,7 @@ class ToolError(Exception):
 
 
 def tlc_cmd(module, cfg, workers, metadir, xmx="3g", extra=None):
-    cmd = ["java", "-XX:+UseParallelGC", "-Xss1g", "-Xmx" + xmx, "-DTLA-Library=" + LIBPATH,
+    cmd = ["java", "-XX:+UseParallelGC", "-XX:ParallelGCThreads=%d" % max(2, min(8, workers)), "-Xss1g", "-Xmx" + xmx, "-DTLA-Library=" + LIBPATH,
            "-cp", JARS, "tlc2.TLC", "-workers", str(workers), "-metadir", metadir, "-cleanup",
            "-noGenerateSpecTE"]
     if extra:
@@ -85,11 +85,11 @@ def run_tlc(cmd, env, timeout, log_path):
     return res
 
 
-def validate_trace(trace, mode, metadir, log_path, trace2=None, timeout=1800, xmx="3g"):
+def validate_trace(trace, mode, metadir, log_path, trace2=None, timeout=1800, xmx="3g", tier="quick"):
     """Replay one trace chunk on spec/trace/VoluteTrace.tla.  Returns the parsed result."""
     cfg = os.path.join(SPEC, "trace", "VoluteTrace.cfg")
     mod = os.path.join(SPEC, "trace", "VoluteTrace.tla")
-    env = {"TRACE": trace, "MODE": mode, "DUAL": "1" if trace2 else "0", "TRACE2": trace2 or ""}
+    env = {"TRACE": trace, "MODE": mode, "DUAL": "1" if trace2 else "0", "TRACE2": trace2 or "", "TIER": tier}
     res = run_tlc(tlc_cmd(mod, cfg, 1, metadir, xmx=xmx), env, timeout, log_path)
     done = [t for t in res["tuples"] if t[0] == "DONE"]
     res["done"] = done[0] if done else None
